@@ -176,6 +176,30 @@ pub fn run(ctx: &Ctx) -> Report {
         check(&mut rep, &mut model, &cfg, &ops, c["schedule"].as_u64().unwrap_or(1) as u8, &mut rng);
         return rep;
     }
+    // helpers::StreamWriter given a whole piece in ONE write_all call, at sizes just above every size boundary of
+    // the code (and every size-like literal of the tree under test): the file must hold exactly these bytes
+    if ctx.replay.is_none() {
+        let mut bounds: Vec<usize> = vec![CONSTS.cbuf, CONSTS.chunk, CONSTS.block, CONSTS.rcache];
+        if !CONSTS.scaled { bounds.push(65536); bounds.extend(crate::gens::extra_bounds().iter().copied().filter(|b| *b >= 1024 && *b <= (16 << 20))); }
+        bounds.sort(); bounds.dedup();
+        for b in bounds {
+            let mut n = b + if CONSTS.scaled { 5 } else { 1000 };
+            while n % 3 != 1 { n += 1; } // `build_streamed` makes one write_all call for these lengths
+            let data = rng.bytes(n, 3);
+            let ops = vec![Op::Start("s".into()), Op::Append { id: 0, size: n as u64, src: data.clone() }, Op::End(0), Op::Finalize];
+            let cfg = Cfg::plain();
+            let built = build_streamed(&cfg, &ops, Cursor::new);
+            rep.eval(fnv(format!("stream-writer-one-call:{n}").as_bytes()), true);
+            rep.count("stream-writer:one-call");
+            let got = read_all(&built.bytes, &cfg).ok().and_then(|g| g.get("s").and_then(|f| f.content.clone().ok()));
+            if built.results.iter().any(|r| r != "ok" && !r.starts_with("id:")) || got.as_ref() != Some(&data) {
+                rep.violation("oracle", "C13/stream-writer", json!({"what":"one-call-differs"}),
+                    &format!("{n} bytes given to StreamWriter in one write_all call: results {:?}, {} bytes read back", built.results, got.map(|g| g.len() as i64).unwrap_or(-1)),
+                    json!({"cfg": cfg.to_json(), "ops": ops.iter().map(|o| o.to_json()).collect::<Vec<_>>(), "schedule": 1}));
+                if rep.full() { return rep; }
+            }
+        }
+    }
     // corpus: D6 — intact compress-only archive repaired from a one-byte-at-a-time source
     {
         let cfg = Cfg { layers: L_COMP, level: 5, recipients: vec![], reader: 0 };
